@@ -34,6 +34,7 @@ var (
 	repo     = envStr("VERIF_REPO", "/repo")
 	outDir   = envStr("VERIF_OUT", "")
 	replay   = envStr("VERIF_REPLAY", "")
+	replays  = envStr("VERIF_REPLAY_DIR", "")
 	start    = time.Now()
 )
 
@@ -396,7 +397,7 @@ func (s *Sub[C]) record(c C, err error) {
 		key = v.Key
 	}
 	raw, _ := json.Marshal(c)
-	dir := filepath.Join(root, "replays", Property)
+	dir := replayDir()
 	os.MkdirAll(dir, 0o755)
 	file := filepath.Join(dir, fmt.Sprintf("%s-s%d-%d.json", sanitize(key), seed, shard))
 	doc := map[string]any{
@@ -409,6 +410,13 @@ func (s *Sub[C]) record(c C, err error) {
 	violations[s.Name+"|"+key] = violationRec{Sub: s.Name, Key: key, Replay: file, Msg: firstLine(err.Error())}
 	mu.Unlock()
 	fmt.Fprintf(os.Stderr, "VERIF-VIOLATION property=%s sub=%s key=%s replay=%s\n", Property, s.Name, key, file)
+}
+
+func replayDir() string {
+	if replays != "" {
+		return filepath.Join(replays, Property)
+	}
+	return filepath.Join(root, "replays", Property)
 }
 
 func firstLine(s string) string {
@@ -612,7 +620,7 @@ func (w *Watchdog) loop() {
 		if cur == nil || time.Since(since) < w.limit {
 			continue
 		}
-		dir := filepath.Join(root, "replays", Property)
+		dir := replayDir()
 		os.MkdirAll(dir, 0o755)
 		file := filepath.Join(dir, fmt.Sprintf("%s-hang-s%d-%d.json", sanitize(w.sub), seed, shard))
 		doc := map[string]any{
